@@ -96,6 +96,8 @@ class World:
         self.raised: t.List[tuple] = []
         self.collab_count: t.Dict[tuple, int] = {}
         self.saved: t.Dict[tuple, t.Any] = {}
+        self.persist: t.Optional[dict] = None      # write-once store contents that outlive this world (C07: keyed by pipeline id)
+        self.pipeline_ids: t.List[tuple] = []
         self.sync_ctx = None
         self.loop = None
         self.njobs = 0
@@ -146,6 +148,8 @@ def _finish(w: World, rid: int, name: str, i: int, kw: dict, node_self: t.Any, f
     w.log.append(('end', rid, name, i, oc, w.now()))
     reused = _instance_calls(node_self)
     if oc == 'ok':
+        if not _factory_built(node_self):
+            return prov(name, kw) + (('instance-not-factory-built',),)
         if reused > 1:
             # the engine creates a fresh node instance per invocation; state kept on `self` by an earlier attempt must not
             # be visible (it would be in the in-memory modes but not through a process pool, which pickles the callable)
@@ -236,11 +240,19 @@ def _body_log(name: str) -> None:
             f.write(name + '\n')
 
 
-def default(name: str, kw: t.Mapping):
+def _factory_built(node_self: t.Any) -> bool:
+    """Node classes generated with `factory` define default_factory (the engine's documented way to construct a node with
+    collaborators): every instance the engine calls must come from it."""
+    return node_self is None or not getattr(type(node_self), '_mc_factory', False) or getattr(node_self, '_mc_token', None) == 'factory'
+
+
+def default(name: str, kw: t.Mapping, node_self: t.Any = None):
     w = CUR
     rid = RUN.get()
     kw = _norm_kw(kw)
     w.log.append(('default', rid, name, kw, w.now()))
+    if not _factory_built(node_self):
+        return ('default', name, tuple(sorted(kw.items(), key=lambda kv: kv[0])), ('instance-not-factory-built',))
     return ('default', name, tuple(sorted(kw.items(), key=lambda kv: kv[0])))
 
 
@@ -379,16 +391,41 @@ class RecMgr2(RecMgr):
     idx = 1
 
 
+_PARTIAL: t.Dict[tuple, type] = {}
+
+
+def partial_mgr(missing: t.Sequence[str]) -> type:
+    """A manager class (index 0) that does not define the given hooks at all (the engine looks hooks up by name; a manager
+    implementing only some of them is legal)."""
+    key = tuple(sorted(missing))
+    if key not in _PARTIAL:
+        ns = {'idx': 0, '_bind': RecMgr._bind}
+        for kind in ('pipeline_start', 'pipeline_complete', 'node_start', 'node_complete'):
+            if kind not in key:
+                ns['on_' + kind] = getattr(RecMgr, 'on_' + kind)
+        _PARTIAL[key] = type('PartialMgr_' + '_'.join(k.replace('_', '') for k in key), (), ns)
+    return _PARTIAL[key]
+
+
 class RecStore:
     """Recording artifact store; write-once when the world says so."""
 
     def __init__(self, ctx, *a, **k) -> None:
         self.ctx = ctx
+        if CUR is not None:
+            CUR.pipeline_ids.append((RUN.get(), getattr(ctx, 'pipeline_id', None)))
 
     async def save(self, node_id, data) -> None:
         from ml_pipeline_engine.artifact_store.errors import ArtifactAlreadyExists
         w = CUR
         rid = RUN.get()
+        if w.persist is not None:
+            # a store that outlives the run, keyed like the filesystem store: (pipeline id, node id)
+            pk = (getattr(self.ctx, 'pipeline_id', None), node_id)
+            if pk in w.persist:
+                w.log.append(('save', rid, node_id, 'ALREADY-EXISTS', w.now()))
+                raise ArtifactAlreadyExists(f'{node_id} already saved under this pipeline id by an earlier run')
+            w.persist[pk] = data
         mine = self.__dict__.setdefault('_mc_world_run', (id(w), rid))
         if mine != (id(w), rid):
             w.log.append(('anomaly', rid, 'store-instance-shared-between-runs', f'store of run {mine[1]} also serves run {rid}'))
